@@ -682,6 +682,12 @@ def acc_plain(ctx):
         elif kind == 'walk':
             src = r[2][0] if is_call(r, 'collect') and r[2] else r
             ok = over_field(src)
+            if not ok:
+                # the same walk as a loop that puts something made of each item into the result
+                from .loops import loop_collected, item_derived
+                it_ = interp(facts, body)
+                lc = loop_collected(facts, body, it_, it_.ret)
+                ok = lc is not None and over_field(lc[0].src) and all(item_derived(v_, lc[0]) for v_ in lc[1])
         elif kind == 'nth':
             # the n-th element of the walk, in any spelling the position algebra understands (nth, skip+next, enumerate+find, ..)
             from .posalg import PosAlg
